@@ -225,6 +225,15 @@ def b_max(I, args, kw):
 
 def b_round(I, args, kw):
     v = I.force(args[0])
+    if len(args) > 1 and I.pyconst(I.force(args[1])) == 0:
+        # round(x, 0): float result, round-half-even (exact over the reals)
+        k, t = I.num(v)
+        if k == "int":
+            return VInt(t)
+        fl = z3.ToInt(t)
+        diff = t - z3.ToReal(fl)
+        r = z3.If(diff < 0.5, fl, z3.If(diff > 0.5, fl + 1, z3.If(fl % 2 == 0, fl, fl + 1)))
+        return VReal(z3.ToReal(r))
     if len(args) > 1:
         f = z3.Function("py_round_n", z3.RealSort(), z3.IntSort(), z3.RealSort())
         k, t = I.num(v)
